@@ -15,7 +15,7 @@ import (
 )
 
 var recLive = kit.NewRecorder("C20", "live-firing",
-	"one real node, real clock: 30-70 generated jobs in generated time zones whose specs are aimed at the coming minute boundary (and, in the thorough tier, the one after), at one minute off, at the same minute of another hour/day/month, or at year 1 (the scheduler's zero time); a generated subset is disabled, removed, or disabled and re-enabled (some twice) before the boundary; actions are recorded by a message to a collecting process and by a direct callback; "+
+	"one real node, real clock: 30-70 generated jobs in generated time zones whose specs are aimed at the coming minute boundary and the one after, at one minute off, at the same minute of another hour/day/month, or at year 1 (the scheduler's zero time); a generated subset is disabled, removed, or disabled and re-enabled (some twice) before the first boundary and again between the two; actions are recorded by a message to a collecting process and by a direct callback; "+
 		"oracle: the multiset of (job, action minute) fired == the reference evaluator's set over the boundaries waited for, restricted to jobs that were enabled and present: every expected job fires exactly once, disabled and removed jobs never fire, nothing fires at a minute its spec does not denote; "+
 		"non-trivial = a job that was disabled/removed/re-enabled, or whose spec just misses the boundary; distinct by (spec, zone, state)")
 
@@ -72,10 +72,9 @@ func specFor(t *rapid.T, l time.Time, kind int) string {
 }
 
 func TestLiveFiring(t *testing.T) {
-	boundaries := 1
-	if kit.Tier() == "thorough" {
-		boundaries = 2
-	}
+	// two boundaries in both tiers: what a job does at the second one depends on how the
+	// scheduler left it at the first (spooled, skipped while disabled, fired)
+	boundaries := 2
 	rapid.Check(t, func(t *rapid.T) {
 		node, err := kit.StartLocalNode()
 		if err != nil {
